@@ -238,9 +238,9 @@ type outcome struct {
 	OpenErr  string
 	Walk     []model.Msg
 	Next     int64
-	Views    []string // disagreements between views of the recovered log
-	Idem     string   // what a second recovery changed ("" = nothing)
-	Append   string   // failure of append + Check ("" = fine)
+	Views    []string       // disagreements between views of the recovered log
+	Idem     string         // what a second recovery changed ("" = nothing)
+	Append   string         // failure of append + Check ("" = fine)
 	RecJ     []vos.Event    // journal of the recovering Open (depth 2)
 	RecIDs   map[string]int // file identities the journal refers to
 	computed bool
